@@ -495,7 +495,10 @@ func (fx *FuncCtx) builtinAppend(st *State, args []*Val, resT types.Type, pos to
 		q, q, q, s.T, row, q, oldRow, s.T, q, row, q))
 	if !moreIsStr {
 		srcRow := "(select " + h + " (sl_arr " + more.T + "))"
-		// appended part, indexed by the position in the result (so that E-matching finds it from row[k])
+		// appended part: indexed by the position in the source (matches row[len(s)+q] directly, the common single-element case) ...
+		fx.emit(fmt.Sprintf("(assert (forall ((%s Int)) (! (=> (and (<= 0 %s) (< %s %s)) (= (select %s (+ (sl_len %s) %s)) (select %s (+ (sl_off %s) %s)))) :pattern ((select %s (+ (sl_len %s) %s))))))",
+			q, q, q, moreLen, row, s.T, q, srcRow, more.T, q, row, s.T, q))
+		// ... and by the position in the result (so that E-matching finds it from row[k])
 		fx.emit(fmt.Sprintf("(assert (forall ((%s Int)) (! (=> (and (<= (sl_len %s) %s) (< %s %s)) (= (select %s %s) (select %s (+ (sl_off %s) (- %s (sl_len %s)))))) :pattern ((select %s %s)))))",
 			q, s.T, q, q, newLen, row, q, srcRow, more.T, q, s.T, row, q))
 	}
@@ -922,8 +925,8 @@ func (fx *FuncCtx) frameCheck(st *State, k int, pos token.Pos) {
 	}
 	sort.Strings(comps)
 	for _, c := range comps {
-		if strings.HasPrefix(c, "RV$") {
-			continue
+		if strings.HasPrefix(c, "RV$") || strings.HasPrefix(c, "G$br_src") {
+			continue // iteration bookkeeping; the source slice of freshly created readers
 		}
 		now := st.Heap[c]
 		was, ok := entry.Heap[c]
@@ -1164,7 +1167,7 @@ func (fx *FuncCtx) restoreWhen(st, pre *State, cond string) {
 	keep := st.clone()
 	rest := pre.clone()
 	for c, t := range st.Heap {
-		if strings.HasPrefix(c, "G$rd_pos") || strings.HasPrefix(c, "G$it_") || strings.HasPrefix(c, "G$put_") {
+		if strings.HasPrefix(c, "G$rd_pos") || strings.HasPrefix(c, "G$it_") || strings.HasPrefix(c, "G$put_") || strings.HasPrefix(c, "G$br_src") {
 			rest.Heap[c] = t
 		}
 	}
